@@ -356,6 +356,10 @@ class Tr:
             # `X is None or P(X)` / `X is not None and P(X)`: P sees X as a plain value
             env0 = dict(env)
             refined = self.none_test(node.values[0], env0)
+            if refined is not None and isinstance(node.op, ast.And) and not refined[1]:
+                # `X is None and P`: P does not see X
+                b, tb = self.expr(node.values[1], env)
+                return f"(match {env0[refined[0]][0]} with | none => {self.truthy(b, tb)} | some _ => false)", BOOL
             if refined is not None and ((isinstance(node.op, ast.Or) and not refined[1]) or
                                         (isinstance(node.op, ast.And) and refined[1])):
                 name = refined[0]
@@ -1094,6 +1098,15 @@ SPECS = [
          select=_from_stmt("valid_out = (target_lons >= -180) & (target_lons <= 180) & (target_lats <= 90) & (target_lats >= -90)",
                            upto="if isinstance(valid_output_index, np.ma.MaskedArray):\n    valid_output_index = valid_output_index.filled(False)"),
          post_guard=["return valid_output_index"], owners=["C02", "C03"]),
+    # ---- C05: when is the data mask used -------------------------------------------------------------
+    dict(name="nn_mask_decision", file="pyresample/future/resamplers/nearest.py", func="KDTreeNearestXarrayResampler._get_area_mask",
+         mode="fragment", params=[("mask_area", opt(BOOL)), ("is_swath", BOOL)],
+         expr_params={"isinstance(self.source_geo_def, SwathDefinition)": "is_swath"},
+         outputs=["mask_area"], output_types={"mask_area": opt(BOOL)},
+         select=lambda fn: [fn.body[1]],
+         guard=lambda fn: len(fn.body) == 3 and _same(fn.body[0], "if isinstance(mask_area, (np.ndarray, da.Array, DataArray)):\n    return mask_area")
+         and _same(fn.body[2], "if mask_area:\n    return self.compute_data_mask(data)"),
+         owners=["C05"]),
     # ---- C11 -----------------------------------------------------------------------------------
     dict(name="expand_slice", file="pyresample/slicer.py", func="expand_slice",
          params=[("small_slice", sl(INT))], returns=sl(INT), select=_whole, owners=["C11"]),
